@@ -197,6 +197,64 @@ func (g *kvGen) dataOp(w *bufio.Writer, s string) {
 	}
 }
 
+// flushChain flushes every flushable store at or below s, outermost first, so that what was written
+// through s reaches the backend
+func (g *kvGen) flushChain(w *bufio.Writer, s string) {
+	for x := s; x != ""; x = g.parent[x] {
+		if g.isFlush[x] {
+			fmt.Fprintf(w, "flush %s\n", x)
+		}
+	}
+}
+
+// settle: the engine flushes its memtable and compacts (whole or partial range, through the stacking)
+func (g *kvGen) settle(w *bufio.Writer, s string) {
+	switch g.r.Intn(4) {
+	case 0:
+		fmt.Fprintf(w, "compact %s nil nil\n", s)
+		fmt.Fprintf(w, "settle b\n")
+	case 1:
+		fmt.Fprintf(w, "settle %s\n", s)
+		fmt.Fprintf(w, "compact %s %s %s\n", s, HexOf(g.rawKey(1)), HexOf(append(g.rawKey(2), 0xff)))
+	default:
+		fmt.Fprintf(w, "settle %s\n", s)
+	}
+}
+
+// overwriteDeletePattern: the same key written 2-3 times (possibly reaching the engine's tables in
+// between), removed through a batch, then the engine flushes / compacts, then the key is read
+func (g *kvGen) overwriteDeletePattern(w *bufio.Writer, s string) {
+	k := HexOf(g.key())
+	n := 2 + g.r.Intn(2)
+	for i := 0; i < n; i++ {
+		fmt.Fprintf(w, "put %s %s %s\n", s, k, g.val())
+		if g.r.Chance(1, 2) {
+			g.flushChain(w, s)
+		}
+		if g.r.Chance(1, 3) {
+			g.settle(w, s)
+		}
+	}
+	g.flushChain(w, s)
+	ops := "d:" + k
+	if g.r.Chance(1, 2) {
+		ops = "p:" + HexOf(g.key()) + ":" + g.val() + "," + ops
+	}
+	switch g.r.Intn(4) {
+	case 0:
+		fmt.Fprintf(w, "batch %s rb %s %s\n", s, s, ops)
+	default:
+		fmt.Fprintf(w, "batch %s w %s\n", s, ops)
+	}
+	fmt.Fprintf(w, "get %s %s\n", s, k)
+	g.flushChain(w, s)
+	g.settle(w, s)
+	fmt.Fprintf(w, "get %s %s\n", s, k)
+	fmt.Fprintf(w, "has %s %s\n", s, k)
+	fmt.Fprintf(w, "iter %s nil nil\n", s)
+	fmt.Fprintf(w, "iter b nil nil\n")
+}
+
 func (g *kvGen) flushOp(w *bufio.Writer) {
 	if len(g.flush) == 0 {
 		return
@@ -308,9 +366,14 @@ func genKV(stream string, r *Rand, n int, tier string, w *bufio.Writer) {
 			}
 			g.mkPool(stems...)
 			for i := 0; i < nops; i++ {
-				if len(g.flush) > 0 && r.Chance(1, 9) {
+				switch {
+				case r.Chance(1, 25):
+					g.overwriteDeletePattern(w, g.target())
+				case r.Chance(1, 40):
+					g.settle(w, g.target())
+				case len(g.flush) > 0 && r.Chance(1, 9):
 					g.flushOp(w)
-				} else {
+				default:
 					g.dataOp(w, g.target())
 				}
 			}
